@@ -261,7 +261,7 @@ end Seq
 /-! # Part 2 — the thread machine
 
 Any number of goroutines calling `Write`, `Sync` and `Stop` in any order, the flush goroutine, ticks at any moment,
-every interleaving (`BwsConc.Reach`).  `cfg.lockedWait = false ∧ cfg.serialStop = true` is the code as repaired
+every interleaving (`BwsConc.Reach`).  `cfg.lockedWait = false ∧ cfg.waitFlushed = true` is the code as repaired
 (issue 1428 upstream, F11 here); the two witnesses at the end show what each switch is there for. -/
 namespace Conc
 open ZapVerif.BwsConc
@@ -301,17 +301,26 @@ theorem calls_complete (cfg : Cfg) (hc : cfg.lockedWait = false) (s : St) (h : R
     ∃ acts s', (∀ a ∈ acts, a.internal = true) ∧ runActs cfg s acts = some s' ∧ Quiescent s' :=
   quiesces cfg hc _ s h (Nat.le_refl _)
 
-/-- **Stop ends the loop**: when any `Stop` call is about to return on a stopped syncer, the flush goroutine has
-    returned (`relM`: all that is left of the call is the deferred `stopMu.Unlock()`) -/
-theorem stop_ends_loop (cfg : Cfg) (hc : cfg.lockedWait = false) (hs : cfg.serialStop = true) (s : St)
-    (h : Reach cfg s) (i : Nat) (hi : s.cl i = .relM) (hst : s.stopped = true) : s.loop = .finished := by
+/-- **every Stop waits for the shutdown to complete** (the repair of F11) and **Stop ends the loop**: at the moment
+    any `Stop` call returns on a stopped syncer (`cstep` into `retT`), the flush goroutine has returned and a flush has
+    completed that covers every write accepted before the shutdown was signalled -/
+theorem stop_returns_after_shutdown (cfg : Cfg) (hc : cfg.lockedWait = false) (hw : cfg.waitFlushed = true) (s s' : St)
+    (h : Reach cfg s) (i : Nat) (hs : cstep cfg s i = some s') (hret : s'.cl i = .retT) (hst : s'.stopped = true) :
+    s'.loop = .finished ∧ s'.accAtStop ≤ s'.flushed := by
   have I := inv_reach cfg hc s h
-  rcases I.ends hst with hl | ⟨j, hj⟩
-  · exact hl
-  · have a := (I.smu_cl hs i).2 (by simp [hi])
-    have b := (I.smu_cl hs j).2 (by simp [hj])
-    rw [a] at b; injection b with b
-    subst b; rw [hi] at hj; cases hj
+  have I' := inv_reach cfg hc s' (reach_step cfg s s' (.client i) h hs)
+  have hk := ret_flushedClosed cfg hw s s' i I hs hret hst
+  obtain ⟨_, h2, h3⟩ := flushedClosed_done cfg s' I' hk
+  exact ⟨h3, h2⟩
+
+/-- the two halves under the names of the plan -/
+theorem stop_ends_loop (cfg : Cfg) (hc : cfg.lockedWait = false) (hw : cfg.waitFlushed = true) (s s' : St)
+    (h : Reach cfg s) (i : Nat) (hs : cstep cfg s i = some s') (hret : s'.cl i = .retT) (hst : s'.stopped = true) :
+    s'.loop = .finished := (stop_returns_after_shutdown cfg hc hw s s' h i hs hret hst).1
+
+theorem stop_flushes_conc (cfg : Cfg) (hc : cfg.lockedWait = false) (hw : cfg.waitFlushed = true) (s s' : St)
+    (h : Reach cfg s) (i : Nat) (hs : cstep cfg s i = some s') (hret : s'.cl i = .retT) (hst : s'.stopped = true) :
+    s'.accAtStop ≤ s'.flushed := (stop_returns_after_shutdown cfg hc hw s s' h i hs hret hst).2
 
 /-- … and it never comes back: no goroutine is left behind after `Stop` -/
 theorem loop_stays_finished (cfg : Cfg) (hc : cfg.lockedWait = false) (s s' : St) (a : Act) (h : Reach cfg s)
@@ -339,39 +348,34 @@ theorem loop_stays_finished (cfg : Cfg) (hc : cfg.lockedWait = false) (s s' : St
     split at hs
     all_goals (try split at hs)
     all_goals (try split at hs)
+    all_goals (try split at hs)
     all_goals (first | (cases hs; done) | skip)
     all_goals (injection hs with hs; subst hs; simp_all)
 
-/-- **every Stop waits for the flush** (the repair of F11): when any `Stop` call is about to return on a stopped
-    syncer, a flush has completed that covers every write accepted before the shutdown was signalled -/
-theorem stop_flushes_conc (cfg : Cfg) (hc : cfg.lockedWait = false) (hs : cfg.serialStop = true) (s : St)
-    (h : Reach cfg s) (i : Nat) (hi : s.cl i = .relM) (hst : s.stopped = true) : s.accAtStop ≤ s.flushed := by
-  have I := inv_reach cfg hc s h
-  rcases I.flush hst with hl | ⟨j, hj⟩
-  · exact hl
-  · have a := (I.smu_cl hs i).2 (by simp [hi])
-    have b := (I.smu_cl hs j).2 (by rcases hj with hj | hj | hj <;> simp [hj])
-    rw [a] at b; injection b with b
-    subst b; rw [hi] at hj; rcases hj with hj | hj | hj <;> cases hj
-
-/-- **Stop may be called repeatedly, from anywhere**: `close(s.stop)` never runs twice (a second close would panic),
-    the channel is closed exactly when `stopped` is set, and a stopped syncer was initialised -/
+/-- **Stop may be called repeatedly, from anywhere**: neither `close(s.stop)` nor `close(s.flushed)` ever runs twice
+    (a second close would panic), `stop` is closed exactly when `stopped` is set, a stopped syncer was initialised, and
+    at most one `Stop` call is ever the one that shuts down -/
 theorem stop_idempotent_conc (cfg : Cfg) (hc : cfg.lockedWait = false) (s : St) (h : Reach cfg s) :
-    s.panicked = false ∧ s.stopClosed = s.stopped ∧ (s.stopped = true → s.init = true) := by
+    s.panicked = false ∧ s.stopClosed = s.stopped ∧ (s.stopped = true → s.init = true) ∧
+    (∀ i j, shutting (s.cl i) = true → shutting (s.cl j) = true → i = j) := by
   have I := inv_reach cfg hc s h
-  exact ⟨I.no_panic, I.closed_eq, I.stopped_init⟩
+  exact ⟨I.no_panic, I.closed_eq, I.stopped_init, I.unique⟩
 
-/-- a `Stop` on a stopped (or never initialised) syncer leaves everything but its own pc and the mutex untouched -/
+/-- a `Stop` on a syncer that was never initialised or is already stopped changes nothing but its own pc and the mutex -/
 theorem stop_again_noop (cfg : Cfg) (s : St) (i : Nat) (hi : s.cl i = .inT) (hst : (!s.init || s.stopped) = true) :
-    cstep cfg s i = some { s with cl := upd s.cl i .relM, mu := .free } := by
-  simp [cstep, hi, hst]
+    ∃ pc, cstep cfg s i = some { s with cl := upd s.cl i pc, mu := .free } := by
+  cases hin : s.init with
+  | false => exact ⟨.retT, by simp [cstep, hi, hin]⟩
+  | true =>
+    have : s.stopped = true := by simpa [hin] using hst
+    exact ⟨if cfg.waitFlushed then .waitFlushed else .retT, by simp [cstep, hi, hin, this]⟩
 
 /-! ## what the two switches are for -/
 
 def run1428 : List Act :=
   [.write 0, .client 0, .client 0,          -- one Write: initialised, the flush goroutine sits in its select
    .tick,                                    -- a tick arrives: the goroutine is about to call s.Sync()
-   .stop 0, .client 0, .client 0, .client 0] -- Stop: stopMu, s.mu, close(stop) — and waits for `done` under s.mu
+   .stop 0, .client 0, .client 0]            -- Stop: s.mu, close(stop) — and waits for `done` under s.mu
 
 /-- **issue 1428**: with the wait for `done` inside the critical section the machine deadlocks — `Stop` holds `s.mu`
     and waits for the flush goroutine, which waits for `s.mu`; `no_deadlock` is sensitive to exactly this -/
@@ -404,17 +408,18 @@ theorem lock_held_wait_deadlocks :
 
 def runF11 : List Act :=
   [.write 0, .client 0, .client 0,           -- one Write is buffered
-   .stop 0, .client 0, .client 0, .client 0,  -- Stop #1 signals the shutdown and waits for `done`
-   .stop 1, .client 1, .client 1, .client 1]  -- Stop #2 finds `stopped` set and is about to return
+   .stop 0, .client 0, .client 0,             -- Stop #1 signals the shutdown and waits for `done`
+   .stop 1, .client 1, .client 1]             -- Stop #2 finds `stopped` set and returns
 
-/-- **F11**: without `stopMu` a second, concurrent `Stop` returns while the buffered write has not been flushed and
-    the flush goroutine is still running; `stop_flushes_conc` and `stop_ends_loop` are sensitive to exactly this -/
-theorem unserialised_stop_returns_early :
-    ∃ s, Reach { n := 2, serialStop := false } s ∧ s.cl 1 = .relM ∧ s.stopped = true ∧
+/-- **F11**: when a `Stop` that finds the syncer stopped does not wait for `flushed`, a second, concurrent `Stop`
+    returns while the buffered write has not been flushed and the flush goroutine is still running;
+    `stop_returns_after_shutdown` is sensitive to exactly this -/
+theorem second_stop_returns_early :
+    ∃ s, Reach { n := 2, waitFlushed := false } s ∧ s.cl 1 = .retT ∧ s.stopped = true ∧
       s.flushed < s.accAtStop ∧ s.loop ≠ .finished := by
-  have hrun : ((runActs { n := 2, serialStop := false } init runF11).map
-      fun s => (s.cl 1, s.stopped, s.flushed, s.accAtStop, s.loop)) = some (.relM, true, 0, 1, .select) := by decide
-  cases hr : runActs { n := 2, serialStop := false } init runF11 with
+  have hrun : ((runActs { n := 2, waitFlushed := false } init runF11).map
+      fun s => (s.cl 1, s.stopped, s.flushed, s.accAtStop, s.loop)) = some (.retT, true, 0, 1, .select) := by decide
+  cases hr : runActs { n := 2, waitFlushed := false } init runF11 with
   | none => rw [hr] at hrun; cases hrun
   | some s =>
     rw [hr] at hrun
@@ -422,18 +427,22 @@ theorem unserialised_stop_returns_early :
     obtain ⟨h1, h2, h3, h4, h5⟩ := hrun
     exact ⟨s, ⟨runF11, hr⟩, h1, h2, by omega, by rw [h5]; simp⟩
 
-/-- non-vacuity of the repaired machine: the same two schedules run to a state where the second `Stop` is held back
-    at `stopMu` (`wantM`) while the first one still waits -/
-example : ((runActs { n := 2 } init (runF11.take 8)).map
-      fun s => (s.cl 0, s.cl 1, s.smu, (step { n := 2 } s (.client 1)).isSome)) =
-    some (.waitDone, .wantM, some 0, false) := by decide
+/-- non-vacuity of the repaired machine: on the same schedule the second `Stop` is held at `<-flushed` -/
+example : ((runActs { n := 2 } init runF11).map
+      fun s => (s.cl 0, s.cl 1, s.flushedClosed, (step { n := 2 } s (.client 1)).isSome)) =
+    some (.waitDone, .waitFlushed, false, false) := by decide
 
 /-- … and a complete run: Write, two concurrent Stops, everything returns, the goroutine is gone, all is flushed -/
 example : ((runActs { n := 2 } init
-      [.write 0, .client 0, .client 0, .stop 0, .stop 1, .client 0, .client 0, .client 0, .loop,
-       .client 0, .client 0, .client 0, .client 0, .client 1, .client 1, .client 1, .client 1]).map
+      (runF11 ++ [.loop, .client 0, .client 0, .client 0, .client 0, .client 1, .client 0, .client 1])).map
       fun s => (s.cl 0, s.cl 1, s.loop, s.stopped, s.flushed, s.accAtStop, s.panicked)) =
     some (.idle, .idle, .finished, true, 1, 1, false) := by rfl
+
+/-- the hypotheses of `stop_returns_after_shutdown` are satisfiable: the step that lets the second `Stop` return -/
+example : ((runActs { n := 2 } init
+      (runF11 ++ [.loop, .client 0, .client 0, .client 0, .client 0])).bind
+      fun s => (cstep { n := 2 } s 1).map fun s' => (s'.cl 1, s'.stopped, s'.loop, s'.flushed)) =
+    some (.retT, true, .finished, 1) := by rfl
 
 /-! ## the tie of the thread machine to the source (table `Gen/BwsFacts.lean`, re-extracted on every run) -/
 
@@ -441,15 +450,17 @@ example : ((runActs { n := 2 } init
     type, and every method's lock / unlock / close / receive / go / flag assignment / own-method call with the control
     structure around them.  (`Write` and `Sync` take `s.mu` with a deferred unlock; `initialize` starts exactly one
     flush goroutine; `flushLoop` selects on `ticker.C` and `stop` without a default and closes `done` when it returns;
-    `Stop` takes `stopMu` for the whole call, signals under `s.mu` after the two flag tests, then waits and syncs.) -/
+    `Stop` tests the two flags and signals under `s.mu`; a call that found `stopped` set waits for `flushed`; the call
+    that shuts down waits for `done`, syncs, and closes `flushed` when it returns.) -/
 def expectedSkeleton : List (String × List (String × String)) := [
-  ("Stop", [("lock", "s.stopMu"), ("defer-unlock", "s.stopMu"),
-            ("func-call", ""), ("lock", "s.mu"), ("defer-unlock", "s.mu"),
+  ("Stop", [("func-call", ""), ("lock", "s.mu"), ("defer-unlock", "s.mu"),
               ("if", "!s.initialized"), ("return", ""), ("end", ""),
-              ("if", "s.stopped"), ("return", ""), ("end", ""),
+              ("if", "s.stopped"), ("read", "flushed = s.flushed"), ("return", ""), ("end", ""),
               ("set", "s.stopped = true"), ("close", "s.stop"), ("return", ""), ("end", ""),
-            ("if", "!stopped"), ("return", ""), ("end", ""),
-            ("recv", "s.done"), ("call", "s.Sync"), ("return", "")]),
+            ("if", "!stopped"),
+              ("if", "flushed != nil"), ("recv", "flushed"), ("end", ""),
+              ("return", ""), ("end", ""),
+            ("defer-close", "s.flushed"), ("recv", "s.done"), ("call", "s.Sync"), ("return", "")]),
   ("Sync", [("lock", "s.mu"), ("defer-unlock", "s.mu"), ("if", "s.initialized"), ("end", ""), ("return", "")]),
   ("Write", [("lock", "s.mu"), ("defer-unlock", "s.mu"),
              ("if", "!s.initialized"), ("call", "s.initialize"), ("end", ""),
@@ -457,23 +468,25 @@ def expectedSkeleton : List (String × List (String × String)) := [
   ("flushLoop", [("defer-close", "s.done"), ("for", ""), ("select", ""),
                  ("case-recv", "s.ticker.C"), ("call", "s.Sync"),
                  ("case-recv", "s.stop"), ("return", ""), ("end", ""), ("end", "")]),
-  ("initialize", [("set", "s.stop = make(…)"), ("set", "s.done = make(…)"), ("set", "s.initialized = true"),
-                  ("go", "s.flushLoop")])]
+  ("initialize", [("set", "s.stop = make(…)"), ("set", "s.done = make(…)"), ("set", "s.flushed = make(…)"),
+                  ("set", "s.initialized = true"), ("go", "s.flushLoop")])]
 
 theorem skeleton_as_modelled :
     Gen.bwsSkeleton = expectedSkeleton ∧
-    Gen.bwsSyncFields = ["stopMu sync.Mutex", "mu sync.Mutex", "initialized bool", "stopped bool", "stop chan", "done chan"] := by
+    Gen.bwsSyncFields = ["mu sync.Mutex", "initialized bool", "stopped bool", "stop chan", "done chan", "flushed chan"] := by
   decide
 
 /-- what the machine's shape depends on, read off the extracted skeleton by the lock-set analysis `BwsSkel.heldAt`:
-    `Stop` waits for `done` and runs its final `Sync` holding `stopMu` only — not `s.mu` (issue 1428) —, closes `stop`
-    under both mutexes, the flush goroutine calls `Sync` holding nothing, and `initialize` (hence `go flushLoop`)
-    runs under `s.mu` -/
-theorem wait_for_done_outside_mu :
-    BwsSkel.heldWhen Gen.bws_Stop ("recv", "s.done") = [["s.stopMu"]] ∧
-    BwsSkel.heldWhen Gen.bws_Stop ("call", "s.Sync") = [["s.stopMu"]] ∧
-    BwsSkel.heldWhen Gen.bws_Stop ("close", "s.stop") = [["s.mu", "s.stopMu"]] ∧
-    BwsSkel.heldWhen Gen.bws_Stop ("set", "s.stopped = true") = [["s.mu", "s.stopMu"]] ∧
+    `Stop` waits for `done`, waits for `flushed` and runs its final `Sync` holding no mutex — in particular not `s.mu`
+    (issue 1428) —, tests and sets `stopped`, copies `s.flushed` and closes `stop` under `s.mu`, the flush goroutine
+    calls `Sync` holding nothing, and `initialize` (hence `go flushLoop`) runs under `s.mu` -/
+theorem waits_outside_mu :
+    BwsSkel.heldWhen Gen.bws_Stop ("recv", "s.done") = [[]] ∧
+    BwsSkel.heldWhen Gen.bws_Stop ("recv", "flushed") = [[]] ∧
+    BwsSkel.heldWhen Gen.bws_Stop ("call", "s.Sync") = [[]] ∧
+    BwsSkel.heldWhen Gen.bws_Stop ("close", "s.stop") = [["s.mu"]] ∧
+    BwsSkel.heldWhen Gen.bws_Stop ("set", "s.stopped = true") = [["s.mu"]] ∧
+    BwsSkel.heldWhen Gen.bws_Stop ("read", "flushed = s.flushed") = [["s.mu"]] ∧
     BwsSkel.heldWhen Gen.bws_flushLoop ("call", "s.Sync") = [[]] ∧
     BwsSkel.heldWhen Gen.bws_Write ("call", "s.initialize") = [["s.mu"]] := by
   decide
